@@ -793,6 +793,92 @@ def rule_max(S):
     S.require('R-MAX', 'truncation tests', n_tests, 2 * len(fns))
 
 
+def rule_lft(S):
+    facts = S.facts()
+    S.rule('R-LFT', 'border-chain walks (every scan function that calls scan_border): at every call of scan_border, on '
+                    'every path, each endpoint argument holds the value of the walk\'s own endpoint parameter of the same '
+                    'side (the parameter itself, or a local that was copied from it and not re-assigned anything else): '
+                    'the descent only lands near the endpoint (its length argument is a hint, R-NARROW; concurrent splits '
+                    'move keys right), so every visited border has to apply both endpoint tests - an endpoint weakened '
+                    'to INF after the first border lets keys outside the interval through')
+    n_sites = 0
+    agg = {}
+    for f in sorted(facts.functions.values(), key=lambda x: x.fid):
+        if not f.blocks or f.qname != 'yakushima::scan':
+            continue
+        calls = [n for n in f.all_nodes() if is_call(n, cq='yakushima::scan_border')]
+        if not calls:
+            continue
+        eps = [p['id'] for p in f.params if is_ep(p['type'])]
+        if len(eps) != 2:
+            raise AnalysisBroken('R-LFT: %s does not take two endpoints' % f.qname)
+        fname = f.qname + ' [' + f.file + ', every instantiation]'
+        locs = {v['id'] for m in f.all_nodes() if m['k'] == 'DeclStmt' for v in m.get('vars', [])
+                if is_ep((v.get('type') or ''))}
+        sites = {}
+
+        def val(nd, st):
+            x = f.strip(nd, casts=True)
+            while x is not None and x['k'] in ('CXXConstructExpr', 'InitListExpr', 'MaterializeTemporaryExpr') and \
+                    len(f.ch(x)) == 1:
+                x = f.strip(f.ch(x)[0], casts=True)
+            if x is not None and x['k'] == 'DeclRefExpr':
+                if x.get('id') in eps:
+                    return eps.index(x['id'])
+                for (v, side) in st:
+                    if v == x.get('id'):
+                        return side
+            return 'other'
+
+        def step(ctx, nd, st):
+            k = nd['k']
+            if k == 'DeclStmt':
+                for v in nd.get('vars', []):
+                    if v['id'] in locs:
+                        st = frozenset(x for x in st if x[0] != v['id']) | \
+                            {(v['id'], val(f.node(v['init']), st) if 'init' in v else 'other')}
+                return st
+            if k == 'BinaryOperator' and nd.get('op') == '=':
+                l = f.strip(f.ch(nd)[0], casts=True)
+                if l is not None and l['k'] == 'DeclRefExpr' and l.get('id') in locs:
+                    return frozenset(x for x in st if x[0] != l['id']) | {(l['id'], val(f.ch(nd)[1], st))}
+                if l is not None and l['k'] == 'DeclRefExpr' and l.get('id') in eps:
+                    return st | {('#param-assigned', eps.index(l['id']))}
+                return st
+            if is_call(nd, cq='yakushima::scan_border'):
+                g = facts.get(nd.get('callee'))
+                args = call_args(f, nd)
+                side = 0
+                for i, a in enumerate(args):
+                    pty = (g.params[i]['type'] if g is not None and i < len(g.params) else
+                           (f.strip(a, casts=True) or {}).get('ty', ''))
+                    if not is_ep(pty):
+                        continue
+                    got = val(a, st)
+                    e = sites.setdefault('scan_border at %s: endpoint %d' % (short_loc(nd), side),
+                                         {'ok': True, 'loc': short_loc(nd), 'path': None})
+                    if got != side or ('#param-assigned', side) in st:
+                        e['ok'] = False
+                        e['path'] = e['path'] or ctx.witness()
+                    side += 1
+                return st
+            return st
+
+        Explorer(f, step).run(frozenset())
+        for site, e in sites.items():
+            a = agg.setdefault((fname, site), e)
+            if not e['ok'] and a['ok']:
+                agg[(fname, site)] = e
+    for (fname, site), e in sorted(agg.items()):
+        if True:
+            n_sites += 1
+            S.ob('R-LFT', fname, site, e['ok'],
+                 'the walk\'s own endpoint reaches every visited border' if e['ok'] else
+                 'on some path this border is visited with an endpoint other than the one the walk was given (weakened '
+                 'or replaced between borders): keys outside the interval can be delivered', loc=e['loc'], path=e['path'])
+    S.require('R-LFT', 'endpoint arguments of scan_border calls in the walks', n_sites, 4)
+
+
 def run(S):
     S.undecided = ['that the returned set equals the interval (endpoint translation between layers, ordering, '
                    'values) - runtime data; R-MAX decides only that the truncation test dominates every growth',
@@ -802,6 +888,7 @@ def run(S):
     rule_val(S)
     rule_tab(S)
     rule_max(S)
+    rule_lft(S)
     from checks import keylen, C18
     keylen.rule_narrow(S)
     C18.rule_slice(S)
